@@ -41,6 +41,7 @@ CODES = {
     130: "decorated group is not the nearest decorator's output",
     132: "group consumer ran before the nearest group decorator succeeded (inside its build window)",
     140: "a visible group feeder was not run", 141: "group members differ from the visible feeders' results",
+    152: "soft group lacks a member of a constructor required by another field of the same parameter object",
     150: "soft group contains a member no visible executed feeder returned", 151: "soft group lacks a member of a feeder executed before the Invoke",
     160: "kind mismatch slice/single", 170: "invoked function not executed exactly once", 171: "invoked function executed although Invoke failed earlier",
     172: "registration executed user code", 201: "execution index inconsistent", 202: "function executed again after it had succeeded",
@@ -81,7 +82,7 @@ SPECS = {
              chk="fun c obs => chk_C02 (cs_hist c) obs",
              rule="non-trivial: some function is demanded by at least two Invokes or through two paths (>=2 Invokes and >=1 execution)"),
     "C03": S(profiles=[("bystanders", 0.7), ("decor", 0.3)], projection="PExecSet",
-             chk="fun c obs => chk_C03 (cs_hist c) obs",
+             chk="fun c obs => chk_C03 (cs_hist c) obs ++ chk_prov (cs_beh c) (cs_hist c) obs",
              rule="non-trivial: at least one accepted constructor is never executed while some Invoke succeeds"),
     "C04": S(profiles=[("gaps", 1.0)], projection="PExec",
              chk="fun c obs => chk_C04 (cs_cfg c) (cs_beh c) (cs_hist c) obs",
@@ -93,11 +94,11 @@ SPECS = {
     "C06": S(profiles=[("rejections", 1.0)], projection="PExec", twin="drop-rejected",
              chk2="fun c t p => chk_C06 (cs_hist c) (cs_impl c) t",
              rule="non-trivial: at least one Provide/Decorate was rejected and a later Invoke executed something"),
-    "C07": S(profiles=[("faults", 1.0)], projection="PExec",
+    "C07": S(profiles=[("faults", 0.75), ("gfaults", 0.25)], projection="PExec",
              chk="fun c obs => chk_C07 (cs_cfg c) (cs_hist c) obs ++ chk_prov (cs_beh c) (cs_hist c) obs",
              rule="non-trivial: some user function failed (error or panic) and a later Invoke demanded it again"),
     "C08": S(profiles=[("trees", 1.0)], projection="PExec",
-             chk="fun c obs => chk_C08 (cs_beh c) (cs_hist c) obs",
+             chk="fun c obs => chk_C08 (cs_beh c) (cs_hist c) obs ++ walk (fun r log o ob => chk_missing_op r log o ob) 0 reg0 [] (cs_hist c) obs",
              rule="non-trivial: >=3 scopes and some Invoke from a non-root scope executed a constructor"),
     "C09": S(profiles=[("keys", 1.0)], projection="PExec",
              chk="fun c obs => chk_C09 (cs_beh c) (cs_hist c) obs",
@@ -111,7 +112,7 @@ SPECS = {
     "C12": S(profiles=[("decor", 1.0)], projection="PExec",
              chk="fun c obs => chk_C12 (cs_beh c) (cs_hist c) obs",
              rule="non-trivial: a decorator executed and some consumer received its output"),
-    "C13": S(profiles=[("faults", 0.5), ("gaps", 0.25), ("cycles", 0.25)], projection="PChain", flags=True,
+    "C13": S(profiles=[("faults", 0.35), ("gfaults", 0.25), ("gaps", 0.2), ("cycles", 0.2)], projection="PChain", flags=True,
              requires=CORE + ["ErrCauseCheck"],
              rule="non-trivial: some operation returned an error (each distinct chain shape counts)"),
     "C14": S(profiles=[("rejections", 0.6), ("core-mix", 0.4)], projection="PVerdict",
@@ -244,7 +245,7 @@ def encode_case(c, rng):
         if rng.random() < 0.4:
             f["variadic"] = True
         rs = f.get("results") or []
-        if rs and all(r["k"] != "obj" for r in rs) and not any(r.get("as") for r in rs) and rng.random() < 0.7:
+        if rs and all(r["k"] != "obj" for r in rs) and not any(r.get("as") and r["k"] == "group" for r in rs) and rng.random() < 0.7:
             # positional results (sharing name/group through options) -> one result object with tags
             f["results"] = [dict(k="obj", fields=rs)]
         elif rs and rng.random() < 0.4 and not any(r["k"] != "obj" and (r.get("name") or r.get("group") or r.get("as")) for r in rs):
